@@ -84,6 +84,8 @@ def check_cell(lib, libname, name, ins, outs):
     if dict(pin_dict) != want:
         out.append(('pin-table', f'{libname}.{name}: pin table {dict(pin_dict)} != declaration order {want}'))
     io = [n.name for n in impl.io_nodes]
+    if len(set(io)) != len(io):
+        out.append(('REQ:port-names-distinct', f'{libname}.{name}: the ports of the implementation circuit share a name: {io} (requires of the pin-numbering contract)'))
     if sorted(io) != sorted(ins + outs) or [p for p in io if p in ins] != ins or [p for p in io if p in outs] != outs:
         out.append(('pins-agree-with-implementation', f'{libname}.{name}: implementation ports {io} vs declared {ins} / {outs}'))
     fam = datasheet.family(name, ins, outs)
